@@ -1,7 +1,7 @@
 """Kernel translator: Python AST of artlib's straight-line numeric kernels  ->  Lean 4 definitions.
 
 Run on every check of C03 (and by hand: `python -m artv.ktrans [repo]`).  It reads the *source files* of
-`$VERIF_REPO/artlib/elementary/{FuzzyART,ART1,ART2,HypersphereART}.py` (no import), translates the bodies
+`$VERIF_REPO/artlib/elementary/{FuzzyART,ART1,ART2,HypersphereART,EllipsoidART,GaussianART}.py` (no import), translates the bodies
 of `category_choice`, `match_criterion`, `update`, `new_weight` (and `HypersphereART.category_distance`)
 into Lean definitions over an ordered field and writes `lean/ArtGen/Kernels.lean`.  The committed file
 `lean/ArtGenProofs/GenSpec.lean` proves `Gen.<Class>.<fn> = <published definition of ArtModel/Kernels>`
@@ -17,7 +17,8 @@ Supported subset
   expressions: names, numbers, + - * / unary -, comparisons, `a if c else b`, `params["k"]`, `cache["k"]`,
                `self.dim_`, `self.dim_original`, slices `w[:n]`, `w[n:]`, `w[:-1]`, `w[-1]`,
                calls l1norm, l2norm2, fuzzy_and, np.minimum, np.sum, np.dot, np.matmul, np.sqrt, np.concatenate,
-               np.logical_and, np.copy, float, max, min, self.category_distance
+               np.logical_and, np.copy, float, max, min, self.category_distance, np.exp, np.multiply, np.prod,
+               `sum(w_[-1] for w_ in self.W)`, `v ** 2`, `w[a:b]`, `w[-k]`, dyadic float constants
 Types are inferred bottom-up: S (scalar), V (vector), N (the natural number dim_).
 """
 from __future__ import annotations
@@ -41,12 +42,14 @@ FILES = {
     "ART2A": "artlib/elementary/ART2.py",
     "HypersphereART": "artlib/elementary/HypersphereART.py",
     "EllipsoidART": "artlib/elementary/EllipsoidART.py",
+    "GaussianART": "artlib/elementary/GaussianART.py",
 }
 FUNCS = ["category_choice", "match_criterion", "update", "new_weight"]
 EXTRA = {"HypersphereART": ["category_distance"], "EllipsoidART": ["category_distance"]}
 
 # arguments that are vectors; everything read from params / cache is a scalar
 VECTOR_ARGS = {"i", "w", "centroid", "major_axis", "data", "x", "y"}
+VECTOR_PARAMS = {"sigma_init"}     # hyper-parameters that are vectors
 
 
 def find_function(tree: ast.Module, cls: str, fn: str) -> ast.FunctionDef:
@@ -67,6 +70,9 @@ class Ctx:
         self.uses_dim = False
         self.uses_dim_original = False
         self.uses_sqrt = False
+        self.uses_exp = False
+        self.uses_allW = False
+        self.vec_params: list[str] = []
         self.cache_out: dict[str, tuple[str, str]] = {}
 
 
@@ -85,7 +91,11 @@ def tr_expr(e: ast.AST, c: Ctx) -> tuple[str, str]:
         if isinstance(v, bool) or not isinstance(v, (int, float)):
             raise Unsupported(f"constant {v!r}")
         if float(v) != int(v):
-            raise Unsupported(f"non-integral constant {v!r}")
+            from fractions import Fraction
+            fr = Fraction(float(v))
+            if fr.denominator > 1024 or fr < 0:
+                raise Unsupported(f"constant {v!r}")
+            return f"(({fr.numerator} : α) / ({fr.denominator} : α))", "S"
         n = int(v)
         return (f"({n} : α)" if n >= 0 else f"(-{-n} : α)"), "S"
     if isinstance(e, ast.UnaryOp) and isinstance(e.op, ast.USub):
@@ -94,12 +104,27 @@ def tr_expr(e: ast.AST, c: Ctx) -> tuple[str, str]:
             raise Unsupported("unary minus on a vector")
         return f"(-{t})", "S"
     if isinstance(e, ast.BinOp):
+        # natural-number arithmetic on dim_ (slice bounds): k * self.dim_, self.dim_ + k
+        def nat_side(x):
+            if isinstance(x, ast.Constant) and isinstance(x.value, int) and not isinstance(x.value, bool) and x.value >= 0:
+                return str(x.value)
+            t_, ty_ = tr_expr(x, c)
+            return t_ if ty_ == "N" else None
+        if isinstance(e.op, (ast.Add, ast.Mult)) and (isinstance(e.left, ast.Constant) or isinstance(e.right, ast.Constant)):
+            try:
+                l_, r_ = nat_side(e.left), nat_side(e.right)
+            except Unsupported:
+                l_ = r_ = None
+            if l_ is not None and r_ is not None and not (isinstance(e.left, ast.Constant) and isinstance(e.right, ast.Constant)):
+                return f"({l_} {'+' if isinstance(e.op, ast.Add) else '*'} {r_})", "N"
         a, ta = tr_expr(e.left, c)
         b, tb = tr_expr(e.right, c)
         op = {ast.Add: "+", ast.Sub: "-", ast.Mult: "*", ast.Div: "/"}.get(type(e.op))
         if op is None:
             if isinstance(e.op, ast.Pow) and tb == "S" and b == "(2 : α)" and ta == "S":
                 return f"({a} * {a})", "S"
+            if isinstance(e.op, ast.Pow) and tb == "S" and b == "(2 : α)" and ta == "V":
+                return f"(List.zipWith (fun s t => s * t) {a} {a})", "V"
             raise Unsupported(f"operator {type(e.op).__name__}")
         if ta == "N" or tb == "N":
             # dim_ used as a number
@@ -129,6 +154,10 @@ def tr_expr(e: ast.AST, c: Ctx) -> tuple[str, str]:
             k = e.slice.value if isinstance(e.slice, ast.Constant) else None
             if not isinstance(k, str):
                 raise Unsupported("params subscript")
+            if k in VECTOR_PARAMS:
+                if k not in c.vec_params:
+                    c.vec_params.append(k)
+                return lean_name(k), "V"
             if k not in c.params:
                 c.params.append(k)
             return lean_name(k), "S"
@@ -165,9 +194,18 @@ def tr_expr(e: ast.AST, c: Ctx) -> tuple[str, str]:
                 if tl != "N":
                     raise Unsupported("slice bound")
                 return f"(List.dropLast (List.drop {l_} {v}))", "V"
+            if lo is not None and hi is not None:
+                l_, tl = tr_expr(lo, c)
+                h_, th = tr_expr(hi, c)
+                if tl != "N" or th != "N":
+                    raise Unsupported("slice bound")
+                return f"(List.take ({h_} - {l_}) (List.drop {l_} {v}))", "V"
             raise Unsupported("slice form")
         if isinstance(s, ast.UnaryOp) and isinstance(s.op, ast.USub) and isinstance(s.operand, ast.Constant) and s.operand.value == 1:
             return f"(List.getLastD {v} 0)", "S"
+        if isinstance(s, ast.UnaryOp) and isinstance(s.op, ast.USub) and isinstance(s.operand, ast.Constant) \
+                and isinstance(s.operand.value, int) and s.operand.value > 1:
+            return f"(List.getD {v} (List.length {v} - {s.operand.value}) 0)", "S"
         raise Unsupported("index form")
     if isinstance(e, ast.Attribute):
         if isinstance(e.value, ast.Name) and e.value.id == "self":
@@ -185,6 +223,23 @@ def tr_expr(e: ast.AST, c: Ctx) -> tuple[str, str]:
         raise Unsupported("list literal of non-scalars")
     if isinstance(e, ast.Call):
         f = ast.unparse(e.func)
+        if f == "sum" and len(e.args) == 1 and isinstance(e.args[0], ast.GeneratorExp):
+            g = e.args[0]
+            if (len(g.generators) == 1 and not g.generators[0].ifs and isinstance(g.generators[0].target, ast.Name)
+                    and ast.unparse(g.generators[0].iter) == "self.W"):
+                vname = g.generators[0].target.id
+                saved = c.types.get(vname)
+                c.types[vname] = "V"
+                el, tel = tr_expr(g.elt, c)
+                if saved is None:
+                    del c.types[vname]
+                else:
+                    c.types[vname] = saved
+                if tel != "S":
+                    raise Unsupported("sum over self.W of non-scalars")
+                c.uses_allW = True
+                return f"(Art.vsum (List.map (fun {vname}_ => {el}) allW))", "S"
+            raise Unsupported("generator form")
         if f == "np.concatenate":
             args = []
         elif f == "self.category_distance":
@@ -214,9 +269,21 @@ def tr_expr(e: ast.AST, c: Ctx) -> tuple[str, str]:
             need("V")
             return f"(Art.dot {args[0][0]} {args[0][0]})", "S"
         if f == "np.sqrt":
-            need("S")
             c.uses_sqrt = True
+            if [t for _, t in args] == ["V"]:
+                return f"(List.map sqrt {args[0][0]})", "V"
+            need("S")
             return f"(sqrt {args[0][0]})", "S"
+        if f == "np.exp":
+            need("S")
+            c.uses_exp = True
+            return f"(exp {args[0][0]})", "S"
+        if f == "np.multiply":
+            need("V", "V")
+            return f"(List.zipWith (fun s t => s * t) {args[0][0]} {args[1][0]})", "V"
+        if f == "np.prod":
+            need("V")
+            return f"(Art.vprod {args[0][0]})", "S"
         if f == "float":
             need("S")
             return args[0][0], "S"
@@ -343,11 +410,16 @@ def translate_function(cls: str, fn: str, f: ast.FunctionDef) -> str:
     binders = []
     if c.uses_sqrt:
         binders.append("(sqrt : α → α)")
+    if c.uses_exp:
+        binders.append("(exp : α → α)")
+    if c.uses_allW:
+        binders.append("(allW : List (List α))")
     if c.uses_dim:
         binders.append("(dim : Nat)")
     if c.uses_dim_original:
         binders.append("(dimOriginal : Nat)")
     binders += [f"({lean_name(k)} : α)" for k in c.params]
+    binders += [f"({lean_name(k)} : List α)" for k in c.vec_params]
     binders += [f"(c_{k} : α)" for k in c.cache_in]
     binders += [f"({a}_ : List α)" for a in vec_args]
     rty = "α" if ty == "S" else "List α"
